@@ -340,6 +340,28 @@ def r4_commit_forms(ctx, P, D, R="C15.R4"):
         ctx.inst(R, b.path, ok, "reverse growth: " + desc, where=b.where(), site="grow copy rev")
 
 
+def r5_direction_after_prepare(ctx, P, R="C15.R5"):
+    ctx.rule(R, "type-erased paths read the bump direction from the current chunk header (is_upwards_allocating); that is the "
+                "static dummy header - with the opposite geometry - until the allocator has a chunk, so every such query is "
+                "dominated by the success edge of a prepare_allocation(_rev) / allocate call in the same function")
+    n = 0
+    for b in P.fn_bodies():
+        qs = b.calls_to(lambda f: f.get("name") == "is_upwards_allocating" and "for_trait_object" in f.get("path", ""))
+        if not qs:
+            continue
+        ve = b.variant_edges(lambda e: e[0] == "call" and e[1].split("::")[-1] in
+                             ("prepare_allocation", "prepare_allocation_rev", "allocate"))
+        oke = ve.get("Ok", [])
+        for k, (s, t) in enumerate(qs):
+            n += 1
+            ok = b.controlled_by(s, oke, cleanup=False)
+            ctx.inst(R, b.path, ok, "direction is queried after a successful prepare/allocate (a real chunk exists)" if ok else
+                     "is_upwards_allocating is called before the prepare/allocate call succeeded: on a still unallocated arena it "
+                     "reads the dummy header and reports the wrong direction, so the buffer is anchored at the wrong end of the "
+                     "free range (padding before the committed block)", where=b.where(s), site=f"direction query #{k}")
+    ctx.floor(R, "direction queries on type-erased paths", n, 2)
+
+
 def _mulA(a, b):
     from ..sym import _mul
     return _mul(a, b)
@@ -355,4 +377,5 @@ def run(ctx, progs):
         r2_prepare_never_writes(ctx, P, D)
         r3_drop_glue(ctx, P)
         r4_commit_forms(ctx, P, D)
+        r5_direction_after_prepare(ctx, P)
     ctx.config = None
